@@ -54,6 +54,9 @@ type memCase struct {
 	// away from the window just below 2^64: orderings and searches have to cope with both
 	// halves of the address space at once
 	Far bool `json:"far,omitempty"`
+	// SharedBuf: the initial blocks of a Bytes memory are windows of one larger buffer (slices
+	// with spare capacity), not separately allocated slices
+	SharedBuf bool `json:"shared_buf,omitempty"`
 }
 
 // memTopEndRun: the last MaxW bytes of the address space, [2^64-w, 2^64).
@@ -436,8 +439,31 @@ func memRun(c memCase) (*eng.Fail, int) {
 
 	mkBytes := func() (*memory.Bytes, *eng.Fail) {
 		var in []memory.ByteBlock
+		var shared, sharedCopy []byte
+		if c.SharedBuf {
+			// all blocks are windows of ONE buffer (a file image), laid out in reverse order with
+			// spare room at its end: every window has capacity beyond its length
+			n := 8
+			for _, b := range c.Blocks {
+				n += len(b.Bytes) / 2
+			}
+			shared = make([]byte, n)
+			for i := range shared {
+				shared[i] = 0xee
+			}
+			pos := 0
+			for i := len(c.Blocks) - 1; i >= 0; i-- {
+				pos += copy(shared[pos:], hexBytes(c.Blocks[i].Bytes))
+			}
+			sharedCopy = append([]byte{}, shared...)
+		}
+		pos := len(shared) - 8
 		for _, b := range c.Blocks {
 			bs := hexBytes(b.Bytes)
+			if c.SharedBuf {
+				pos -= len(bs)
+				bs = shared[pos : pos+len(bs)]
+			}
 			srcSlices = append(srcSlices, bs)
 			srcCopies = append(srcCopies, append([]byte{}, bs...))
 			in = append(in, blk{off + model.Addr(b.Begin), bs})
@@ -447,6 +473,9 @@ func memRun(c memCase) (*eng.Fail, int) {
 		p, stack := eng.Catch(func() { bm, err = memory.NewBytes(in) })
 		if p != nil {
 			return nil, &eng.Fail{Sig: "NewBytes panic " + eng.PanicSite(stack), What: fmt.Sprintf("NewBytes panics: %v", p), Case: c}
+		}
+		if c.SharedBuf && fmt.Sprintf("%x", shared) != fmt.Sprintf("%x", sharedCopy) {
+			return nil, &eng.Fail{Sig: "Bytes alters-source-slice", What: fmt.Sprintf("NewBytes changed the buffer its blocks were windows of: %x -> %x", sharedCopy, shared), Case: c}
 		}
 		ov := blocksOverlap(c.Blocks)
 		if (err != nil) != ov {
